@@ -176,9 +176,21 @@ class Unit:
             if n < 1 or n > len(loops):
                 raise LostAnchor("%s: loop #%d not found (function has %d loops)" % (fid, n, len(loops)))
             L = loops[n - 1]
-            if "kw" in lp and lp["kw"] != L["kw"]:
+            mk = re.search(r"/\*@L:(\w+):(.*?)\*/", body[L["kw_start"]:L["open"]])
+            spec = lp["spec"].rstrip()
+            if mk:
+                # index loop produced by a rule (while form): the loop clauses talk about the cursor `nxt_<idx>`
+                idx, ln = mk.group(1), mk.group(2)
+                spec = re.sub(r"\b" + re.escape(idx) + r"\b", "nxt_" + idx, spec)
+                if re.search(r"(?m)^\s*invariant\b", spec):
+                    spec = re.sub(r"(?m)^(\s*)invariant\b", r"\1invariant nxt_%s <= %s," % (idx, ln), spec, count=1)
+                else:
+                    spec = "    invariant nxt_%s <= %s,\n" % (idx, ln) + spec
+                if not re.search(r"\bdecreases\b", spec):
+                    spec = spec.rstrip() + "\n    decreases %s - nxt_%s," % (ln, idx)
+            elif "kw" in lp and lp["kw"] != L["kw"]:
                 raise LostAnchor("%s: loop #%d is `%s`, contract expects `%s`" % (fid, n, L["kw"], lp["kw"]))
-            ins.append((L["open"], "\n" + lp["spec"].rstrip() + "\n"))
+            ins.append((L["open"], "\n" + spec + "\n"))
         for g in f.get("ghost", []):
             at = g["at"]
             code = "\n" + g["code"].rstrip() + "\n"
@@ -191,7 +203,8 @@ class Unit:
                     raise LostAnchor("%s: ghost anchor loop #%d not found" % (fid, n))
                 L = loops[n - 1]
                 if where == "entry":
-                    ins.append((L["open"] + 1, code))
+                    bm = body.find("/*@B*/", L["open"], L["close"])
+                    ins.append(((bm + 6) if bm >= 0 else (L["open"] + 1), code))
                 elif where == "end":
                     ins.append((L["close"], code))
                 elif where == "before":
